@@ -4,6 +4,7 @@ import (
 	"context"
 	"sync"
 
+	"github.com/zitadel/oidc/v3/pkg/oidc"
 	"github.com/zitadel/oidc/v3/pkg/op"
 )
 
@@ -27,4 +28,54 @@ func (s *Store) Seq() int {
 	s.mu.Lock()
 	defer s.mu.Unlock()
 	return s.seq
+}
+
+// ---- C06: every standard scope yields a recognisable claim group.
+// Off by default (refstore's contract is unchanged); EnableRichClaims switches it
+// on for one Store:
+//   profile -> additionally preferred_username = RichUsername(sub)
+//   phone   -> phone_number = RichPhone(sub), phone_number_verified = true
+//   address -> address.formatted = RichAddress(sub)
+// (only for users the store knows, like name / email), and
+// GetPrivateClaimsFromScopes answers a userinfo scope <s> that reaches it with
+// the private claim "ui_<s>" = "leak" (the framework is expected to strip those).
+var richClaims sync.Map // *Store -> bool
+
+func (s *Store) EnableRichClaims() { richClaims.Store(s, true) }
+
+func RichUsername(sub string) string { return "u-" + sub }
+func RichPhone(sub string) string    { return "tel-" + sub }
+func RichAddress(sub string) string  { return "addr-" + sub }
+
+func (s *Store) extUserinfo(ui *oidc.UserInfo, u *User, scopes []string) {
+	if _, on := richClaims.Load(s); !on || u == nil {
+		return
+	}
+	for _, sc := range scopes {
+		switch sc {
+		case oidc.ScopeProfile:
+			ui.PreferredUsername = RichUsername(u.Subject)
+		case oidc.ScopePhone:
+			ui.PhoneNumber = RichPhone(u.Subject)
+			ui.PhoneNumberVerified = true
+		case oidc.ScopeAddress:
+			ui.Address = &oidc.UserInfoAddress{Formatted: RichAddress(u.Subject)}
+		}
+	}
+}
+
+func (s *Store) extPrivateClaims(claims map[string]any, scopes []string) map[string]any {
+	if _, on := richClaims.Load(s); !on {
+		return claims
+	}
+	for _, sc := range scopes {
+		switch sc {
+		case oidc.ScopeProfile, oidc.ScopeEmail, oidc.ScopePhone, oidc.ScopeAddress:
+			if claims == nil {
+				claims = map[string]any{}
+			}
+			claims["ui_"+sc] = "leak"
+		}
+	}
+	return claims
 }
